@@ -55,6 +55,9 @@ func main() {
 		}
 		_ = json.NewEncoder(os.Stdout).Encode(c)
 	default:
+		if extraCommand(os.Args[1:]) {
+			return
+		}
 		fmt.Fprintln(os.Stderr, "unknown command")
 		os.Exit(2)
 	}
